@@ -12,11 +12,10 @@ satisfying the emulator invariant on a terminal of at most 65535×65535 and ever
 coincide in these bodies: modelling `int` by `Int` is sound there (it was not before F18: Witness/F18).
 Round 4: cht and cbt (the loops over the tab stops) are covered too — `range_cht`, `range_cbt` need NO hypothesis on the state
 (neither the invariant nor a bound on the tab stops): the only arithmetic is the counter `n + 1` with `n ≤ ps ≤ 65535`.
-print(): `range_print_partial` — every good state with insert mode (IRM) off, every glyph width ≤ 65535 (uniseg gives 0..2): all
-of `col + w - 1`, `width - 1`, the trailing-cell loop and the cursor advance stay in range, across the wrap's `vt.nel()` call
-(the invariant after it from `nel_safe`). Open: print with IRM on (the statements after the shift loop read `vt.width()` of the
-shifted grid; needs "the loop keeps the grid's shape" inside the check), resize (function-level loops, `printCell`); tbc/hts,
-sgr/osc/modes have no arithmetic on positions.
+print(): `range_print` — every good state, every glyph width ≤ 65535 (uniseg gives 0..2): `col + w - 1`, `width - 1`, the
+insert-mode shift loop, the trailing-cell loop and the cursor advance stay in range, across the wrap's `vt.nel()` call (the
+invariant after it from `nel_safe`) and on the grid the shift loop leaves (a successful loop keeps the grid's shape).
+Open: resize (function-level loops, `printCell`); tbc/hts, sgr/osc/modes have no arithmetic on positions.
 -/
 import VaxisModel.Lemmas.EmuBodyRange
 import VaxisModel.Lemmas.EmuBodyRange2
@@ -437,22 +436,19 @@ theorem range_cbt (e : Emu) {n : Int} (hn : POk n) :
   · by_cases h0 : n = 0 <;> simp [Frame.set, initFrame, h0] <;> omega
   · by_cases h0 : n = 0 <;> simp [Frame.set, initFrame, h0] <;> omega
 
-/-- print(): the full statement (every good state, every width up to 65535) -/
-def range_print_full : Prop :=
-  ∀ {e : Emu} {rows cols : Nat}, EmuInv e rows cols → Dim rows cols → ∀ w : Nat, (w : Int) ≤ 65535 →
-    rangeBody TermBodies.body_print [] [(w : Int)] e = true
-
-/-- print() with insert mode off: no `+`/`-` of the Go code leaves ±2^62 — the wrap test `col + w - 1 > right`, `width - 1`,
-    `height - 1`, the early return for zero-width glyphs, the store, the trailing cells `col + i` of a wide glyph, the advance
-    `col + w` and its clamp `right + 1`, on the state before AND after the wrap's `vt.nel()`. Missing for the full statement:
-    the insert-mode shift loop (IRM on), after which the check reads the width of the shifted grid. -/
-theorem range_print_partial {e : Emu} {rows cols : Nat} (h : EmuInv e rows cols) (d : Dim rows cols) (w : Nat)
-    (hw : (w : Int) ≤ 65535) (hirm : e.mode.irm = false) :
+/-- **print(): no `+`/`-` of the Go code leaves ±2^62** — on every good state (insert mode on or off, autowrap on or off, pending
+    wrap or not), every glyph width up to 65535 (uniseg gives 0..2): the wrap test `col + w - 1 > right`, `width - 1`, the
+    insert-mode shift loop (`col + w`, `i - w`, its counter down to `col + w - 1`), `height - 1`, the early return for zero-width
+    glyphs, the store, the trailing cells `col + i` of a wide glyph, the advance `col + w` and its clamp `right + 1` — on the
+    state before AND after the wrap's `vt.nel()` call and on the grid the shift loop leaves. -/
+theorem range_print {e : Emu} {rows cols : Nat} (h : EmuInv e rows cols) (d : Dim rows cols) (w : Nat)
+    (hw : (w : Int) ≤ 65535) :
     rangeBody TermBodies.body_print [] [(w : Int)] e = true :=
-  range_from0 d w hw (initFrame e [(w : Int)]) h rfl hirm
+  range_from0 d w hw (initFrame e [(w : Int)]) h rfl
 
-/-- non-vacuity: a fresh 80×24 terminal meets the hypotheses (wide glyph), and the check fails for a width near 2^62 -/
+/-- non-vacuity: a wide glyph on a fresh 80-column line, the same in insert mode, and the check fails for a width near 2^62 -/
 example : rangeBody TermBodies.body_print [] [2] { Emu.init with right := 79, bottom := 0, primary := [List.replicate 80 {}], alt := [List.replicate 80 {}] } = true := by decide
+example : rangeBody TermBodies.body_print [] [2] { Emu.init with right := 7, bottom := 0, mode := { irm := true, decawm := true }, primary := [List.replicate 8 {}], alt := [List.replicate 8 {}] } = true := by decide
 example : rangeBody TermBodies.body_print [] [4611686018427387904] { Emu.init with right := 79, bottom := 0, cur := { col := 5 }, primary := [List.replicate 80 {}], alt := [List.replicate 80 {}] } = false := by decide
 
 /-- non-vacuity: 44 tab stops, `CSI 3 I` from column 0; and the check does look at the counter: with `n` near 2^62 it fails -/
